@@ -324,6 +324,15 @@ class Check:
     def validate(self, module, files, cfg=None, timeout=1800, env=None, heap="3g", c1=False):
         cwd = os.path.join(SPEC, "real")
         ensure_classes()
+        # keep the sum of the heaps of the side-by-side JVMs within the machine (all of them may fill their heap at once)
+        try:
+            total_gb = int(open("/proc/meminfo").readline().split()[1]) // (1024 * 1024)
+        except Exception:
+            total_gb = 32
+        par = max(1, min(len(files), NCPU))
+        cap = max(1, int(total_gb * 0.7 / par))
+        want = int(float(heap.rstrip("g")))
+        heap = "%dg" % max(1, min(want, cap))
         jobs = []
         for f in files:
             e = dict(self.env)
